@@ -200,8 +200,19 @@ func (p *Provider) ruleSetsChanged(evt fsnotify.Event) error {
 		Msg("Rule update event received")
 
 	if p.srcIsFile && evt.Name != p.src {
-		// an event for another file of the watched directory
-		return nil
+		// An event for another entry of the watched directory. It may affect the rule set file nevertheless:
+		// the file may be a symbolic link into a directory, which is made available via a further symbolic
+		// link. Updates are then done by replacing the latter, as it is the case with mounted kubernetes
+		// config maps. A rule set, which did not change, is not loaded anew.
+		if !evt.Has(fsnotify.Create) && !evt.Has(fsnotify.Rename) && !evt.Has(fsnotify.Remove) {
+			return nil
+		}
+
+		if _, err := os.Stat(p.src); err != nil {
+			return p.ruleSetDeleted(p.src)
+		}
+
+		return p.ruleSetCreatedOrUpdated(p.src)
 	}
 
 	var err error
